@@ -1032,6 +1032,81 @@ def foreign_cases(rng, tier):
     return out
 
 
+# ------------------------------------------------------------------------------------------ wevents (writer model)
+
+STD_DT = {'uint8': 2, 'int32': 8, 'float32': 16}          # NIfTI data type codes (nifti1.h), typed here independently
+STD_ENC = {'ASCII': 1, 'B64BIN': 2, 'B64GZ': 3}           # gifti.dtd / gifti/util.py
+STD_ORD = {'C': 1, 'F': 2}
+
+
+def pair_tok(kv):
+    return enc_text(kv[0]) + ':' + enc_text(kv[1])
+
+
+def wevents_line(d):
+    """description of the image for the Lean writer model `imgEvents`: everything that is logic (element order,
+    attribute order, names from the regenerated tables, str(int)) is left to the model; the external texts
+    (Base64/ASCII payload, '%10.6f' matrix text, str(float) colours) are computed here, independently of nibabel"""
+    import sys
+    toks = ['C17 wevents', 'V~' + enc_text(d.get('version', '1.0')), '~'.join(['M'] + [pair_tok(kv) for kv in d['meta']])]
+    for key, text, rgba in d['labels']:
+        cols = ['_' if (rgba is None or x is None) else enc_text(str(float(x))) for x in (rgba or [None] * 4)]
+        toks.append('~'.join(['L', str(key), enc_text(text)] + cols))
+    for a in d['arrays']:
+        arr = arr_from_bits(a['dt'], a['shape'], a['bits'])
+        cs = a['cs'] or {'ds': 0, 'xs': 0, 'xf': np.identity(4).tolist()}
+        mtext = '\n'.join(' '.join('%10.6f' % x for x in row) for row in cs['xf'])
+        dtext = encode_payload(arr, a['enc'], 'BigEndian' if sys.byteorder == 'big' else 'LittleEndian', a['ord'])
+        toks.append('~'.join(['D', str(a['intent']), str(STD_DT[a['dt']]), str(STD_ORD[a['ord']]), str(STD_ENC[a['enc']]),
+                              '1' if sys.byteorder == 'big' else '2', ','.join(map(str, a['shape'])) or '-', '-', '0',
+                              str(cs['ds']), str(cs['xs']), enc_text(mtext), enc_text(dtext)] +
+                             [pair_tok(kv) for kv in a['meta']]))
+    return ' '.join(toks)
+
+
+def mk_wevents(d):
+    d = dict(d)
+    d['op'] = 'wevents'
+    return Case(wevents_line(d), d, ('wevents', json.dumps(d, sort_keys=True)), 'wevents')
+
+
+def impl_wevents(case):
+    """the handler calls expat makes on the bytes to_xml() produced, adjacent character-data calls merged"""
+    d = dict(case.data, variant='plain', hops=1, op='xml')
+    x = XCase(d, None, 'wevents')
+    tr = run_xml(x)
+    if tr['stage'] == 'write':
+        return 'ERR:write:' + type(tr['exc']).__name__
+    if tr['exc'] is not None:
+        return 'ERR:' + type(tr['exc']).__name__
+    toks, pend = [], []
+    for ev in tr['events']:
+        if ev[0] == 'C':
+            pend.append(ev[1])
+            continue
+        if pend:
+            toks.append('C~' + enc_text(''.join(pend)))
+            pend = []
+        if ev[0] == 'S':
+            toks.append('~'.join(['S', ev[1]] + [f'{k}={enc_text(v)}' for k, v in ev[2].items()]))
+        else:
+            toks.append('E~' + ev[1])
+    return ' '.join(toks)
+
+
+def wevents_cases(rng, tier):
+    out = []
+    for _ in range({'quick': 500, 'thorough': 6000, 'search': 500}[tier]):
+        d = rand_image(rng)
+        d.pop('variant', None)
+        d.pop('hops', None)
+        for a in d['arrays']:
+            a['endian'] = 'LittleEndian'
+            a['swap'] = False
+        out.append(mk_wevents(d))
+    return out
+
+
 # ------------------------------------------------------------------------------------------ module API
 
 def case_from_data(d):
@@ -1050,13 +1125,15 @@ def case_from_data(d):
         return mk_wblock(d)
     if op == 'xmlraw':
         return mk_raw(d['xml'], d['buf'], d.get('stream', 'xml-foreign'))
+    if op == 'wevents':
+        return mk_wevents(d)
     raise ValueError(d)
 
 
 def impl(case):
     op = case.data['op']
     return {'hist': impl_hist, 'orig': impl_orig, 'space': impl_space, 'block': impl_block, 'xml': impl_xml,
-            'wblock': impl_wblock, 'xmlraw': impl_xml}[op](case)
+            'wblock': impl_wblock, 'xmlraw': impl_xml, 'wevents': impl_wevents}[op](case)
 
 
 def oracle(case, out):
@@ -1438,4 +1515,4 @@ def edge_cases(rng, tier):
 
 def cases(rng, tier):
     return spec_cases(rng, tier) + hist_cases(rng, tier) + block_cases(rng, tier) + wblock_cases(rng, tier) + \
-        xml_cases(rng, tier) + edge_cases(rng, tier) + foreign_cases(rng, tier)
+        xml_cases(rng, tier) + edge_cases(rng, tier) + foreign_cases(rng, tier) + wevents_cases(rng, tier)
